@@ -63,8 +63,10 @@ theorem parseOID_spec {s oid r : Bytes} (h : parseOID s = some (oid, r)) (hs : B
       refine ⟨?_, valid_drop _ hs.2, by omega⟩
       rw [hl]; simp [List.take_append_drop]
 
+/-- the KDF field is read back whole: the length octet is `3 + extra.length` (it counts the reserved octet, the hash
+    id, the algorithm id and whatever follows), so writing `[3 + extra.length, 1, hh, a] ++ extra` restores the input -/
 theorem parseKdf_spec {s : Bytes} {hh a : Nat} {extra r : Bytes} (h : parseKdf s = some ((hh, a, extra), r))
-    (hs : Bytes.Valid s) : (extra = [] → [3, 1, hh, a] ++ r = s) ∧ Bytes.Valid r := by
+    (hs : Bytes.Valid s) : [3 + extra.length, 1, hh, a] ++ extra ++ r = s ∧ Bytes.Valid r ∧ extra.length ≤ 252 := by
   match s, h with
   | l :: rest, h =>
     simp only [parseKdf] at h
@@ -78,15 +80,17 @@ theorem parseKdf_spec {s : Bytes} {hh a : Nat} {extra r : Bytes} (h : parseKdf s
           simp only [Option.some.injEq, Prod.mk.injEq] at h
           obtain ⟨⟨rfl, rfl, rfl⟩, rfl⟩ := h
           rw [valid_cons] at hs
-          refine ⟨?_, valid_drop _ hs.2⟩
-          rintro rfl
           have hl : (List.take l rest).length = l := by simp only [List.length_take]; omega
           rw [htake] at hl
-          simp only [List.length_cons, List.length_nil] at hl
+          simp only [List.length_cons] at hl
+          have hl' : 3 + extra0.length = l := by omega
+          refine ⟨?_, valid_drop _ hs.2, by omega⟩
           subst hr
           have := List.take_append_drop l rest
-          rw [htake, ← hl] at this
-          rw [← this, ← hl]; simp
+          rw [htake] at this
+          rw [hl']
+          simp only [List.cons_append, List.nil_append] at this ⊢
+          rw [this]
         · simp at h
       · simp at h
 
@@ -102,9 +106,11 @@ theorem be32_created {t0 t1 t2 t3 : Nat} (h0 : t0 < 256) (h1 : t1 < 256) (h2 : t
 theorem writeMPI_length (m : MPI) : (writeMPI m).length = 2 + m.bytes.length := by
   simp [writeMPI]; omega
 
-theorem parseBody_spec (b : Bytes) (hb : Bytes.Valid b) (k : PubKey) (rest : Bytes)
+/-- with the KDF octets kept (`keepExtra = true`) the serializer restores EVERY accepted body.  Length: the longest
+    accepted body is a DSA key (6 + 4 · (2 + 8192) = 32782); an ECDH body is at most 6 + (1 + 10) + (2 + 8192) + (1 + 255) -/
+theorem parseBody_specB (b : Bytes) (hb : Bytes.Valid b) (k : PubKey) (rest : Bytes)
     (h : parseBody b = some (k, rest)) :
-    (kdfOk k → serializeBody k ++ rest = b) ∧ (serializeBody k).length ≤ 32782 := by
+    serializeBodyB true k ++ rest = b ∧ (serializeBodyB true k).length ≤ 32782 := by
   match b, h with
   | v :: t0 :: t1 :: t2 :: t3 :: algo :: tl, h =>
     simp only [valid_cons] at hb
@@ -127,10 +133,10 @@ theorem parseBody_spec (b : Bytes) (hb : Bytes.Valid b) (k : PubKey) (rest : Byt
           · simp at h
           · simp only [Option.some.injEq, Prod.mk.injEq] at h
             obtain ⟨rfl, rfl⟩ := h
-            refine ⟨fun _ => ?_, ?_⟩
-            · simp only [serializeBody, serializeMat, be32_created h0 h1 h2 h3]
+            refine ⟨?_, ?_⟩
+            · simp only [serializeBodyB, serializeMatB, be32_created h0 h1 h2 h3]
               rw [← en, ← ee]; simp
-            · simp only [serializeBody, serializeMat, be32_created h0 h1 h2 h3, List.length_append,
+            · simp only [serializeBodyB, serializeMatB, be32_created h0 h1 h2 h3, List.length_append,
                 writeMPI_length, List.length_cons, List.length_nil]; omega
         · simp at h
       · simp at h
@@ -150,10 +156,10 @@ theorem parseBody_spec (b : Bytes) (hb : Bytes.Valid b) (k : PubKey) (rest : Byt
               obtain ⟨ey, vr4, ly⟩ := readMPI_spec hy vr3
               simp only [Option.some.injEq, Prod.mk.injEq] at h
               obtain ⟨rfl, rfl⟩ := h
-              refine ⟨fun _ => ?_, ?_⟩
-              · simp only [serializeBody, serializeMat, be32_created h0 h1 h2 h3]
+              refine ⟨?_, ?_⟩
+              · simp only [serializeBodyB, serializeMatB, be32_created h0 h1 h2 h3]
                 rw [← ep, ← eq, ← eg, ← ey]; simp
-              · simp only [serializeBody, serializeMat, be32_created h0 h1 h2 h3, List.length_append,
+              · simp only [serializeBodyB, serializeMatB, be32_created h0 h1 h2 h3, List.length_append,
                   writeMPI_length, List.length_cons, List.length_nil]; omega
             · simp at h
           · simp at h
@@ -172,10 +178,10 @@ theorem parseBody_spec (b : Bytes) (hb : Bytes.Valid b) (k : PubKey) (rest : Byt
             obtain ⟨ey, vr3, ly⟩ := readMPI_spec hy vr2
             simp only [Option.some.injEq, Prod.mk.injEq] at h
             obtain ⟨rfl, rfl⟩ := h
-            refine ⟨fun _ => ?_, ?_⟩
-            · simp only [serializeBody, serializeMat, be32_created h0 h1 h2 h3]
+            refine ⟨?_, ?_⟩
+            · simp only [serializeBodyB, serializeMatB, be32_created h0 h1 h2 h3]
               rw [← ep, ← eg, ← ey]; simp
-            · simp only [serializeBody, serializeMat, be32_created h0 h1 h2 h3, List.length_append,
+            · simp only [serializeBodyB, serializeMatB, be32_created h0 h1 h2 h3, List.length_append,
                 writeMPI_length, List.length_cons, List.length_nil]; omega
           · simp at h
         · simp at h
@@ -190,10 +196,10 @@ theorem parseBody_spec (b : Bytes) (hb : Bytes.Valid b) (k : PubKey) (rest : Byt
           obtain ⟨ep, vr2, lp⟩ := readMPI_spec hp vr1
           simp only [Option.some.injEq, Prod.mk.injEq] at h
           obtain ⟨rfl, rfl⟩ := h
-          refine ⟨fun _ => ?_, ?_⟩
-          · simp only [serializeBody, serializeMat, be32_created h0 h1 h2 h3]
+          refine ⟨?_, ?_⟩
+          · simp only [serializeBodyB, serializeMatB, be32_created h0 h1 h2 h3]
             rw [← eo, ← ep]; simp
-          · simp only [serializeBody, serializeMat, be32_created h0 h1 h2 h3, List.length_append,
+          · simp only [serializeBodyB, serializeMatB, be32_created h0 h1 h2 h3, List.length_append,
               writeMPI_length, List.length_cons, List.length_nil]; omega
         · simp at h
       · simp at h
@@ -207,14 +213,13 @@ theorem parseBody_spec (b : Bytes) (hb : Bytes.Valid b) (k : PubKey) (rest : Byt
           obtain ⟨ep, vr2, lp⟩ := readMPI_spec hp vr1
           split at h
           · rename_i hh a extra r3 hkdf
-            obtain ⟨ek, vr3⟩ := parseKdf_spec hkdf vr2
+            obtain ⟨ek, vr3, lk⟩ := parseKdf_spec hkdf vr2
             simp only [Option.some.injEq, Prod.mk.injEq] at h
             obtain ⟨rfl, rfl⟩ := h
-            refine ⟨fun hk => ?_, ?_⟩
-            · simp only [kdfOk] at hk
-              simp only [serializeBody, serializeMat, be32_created h0 h1 h2 h3]
-              rw [← eo, ← ep, ← ek hk]; simp
-            · simp only [serializeBody, serializeMat, be32_created h0 h1 h2 h3, List.length_append,
+            refine ⟨?_, ?_⟩
+            · simp only [serializeBodyB, serializeMatB, be32_created h0 h1 h2 h3, if_true]
+              rw [← eo, ← ep, ← ek]; simp
+            · simp only [serializeBodyB, serializeMatB, be32_created h0 h1 h2 h3, if_true, List.length_append,
                 writeMPI_length, List.length_cons, List.length_nil]; omega
           · simp at h
         · simp at h
@@ -229,18 +234,53 @@ theorem parseBody_spec (b : Bytes) (hb : Bytes.Valid b) (k : PubKey) (rest : Byt
           obtain ⟨ep, vr2, lp⟩ := readMPI_spec hp vr1
           simp only [Option.some.injEq, Prod.mk.injEq] at h
           obtain ⟨rfl, rfl⟩ := h
-          refine ⟨fun _ => ?_, ?_⟩
-          · simp only [serializeBody, serializeMat, be32_created h0 h1 h2 h3]
+          refine ⟨?_, ?_⟩
+          · simp only [serializeBodyB, serializeMatB, be32_created h0 h1 h2 h3]
             rw [← eo, ← ep]; simp
-          · simp only [serializeBody, serializeMat, be32_created h0 h1 h2 h3, List.length_append,
+          · simp only [serializeBodyB, serializeMatB, be32_created h0 h1 h2 h3, List.length_append,
               writeMPI_length, List.length_cons, List.length_nil]; omega
         · simp at h
       · simp at h
     · simp at h
 
+/-- under `kdfOk` (no octets beyond the three defined ones) both serializers write the same KDF field -/
+theorem serializeBodyB_kdfOk (ke : Bool) (k : PubKey) (hk : kdfOk k) : serializeBodyB ke k = serializeBodyB true k := by
+  obtain ⟨c, al, mat⟩ := k
+  cases ke
+  · cases mat <;> simp only [serializeBodyB, serializeMatB]
+    simp only [kdfOk] at hk
+    subst hk
+    simp
+  · rfl
+
+/-- dropping the extra KDF octets never makes the body longer -/
+theorem serializeBodyB_length_le (ke : Bool) (k : PubKey) :
+    (serializeBodyB ke k).length ≤ (serializeBodyB true k).length := by
+  obtain ⟨c, al, mat⟩ := k
+  cases ke
+  · cases mat <;> simp only [serializeBodyB, serializeMatB, Nat.le_refl]
+    simp only [if_true, Bool.false_eq_true, if_false, List.length_append, List.length_cons, List.length_nil]
+    omega
+  · exact Nat.le_refl _
+
+/-- holds for either value of the regenerated fact `Gen.pgpKdfKeepsExtra` -/
+theorem parseBody_spec (b : Bytes) (hb : Bytes.Valid b) (k : PubKey) (rest : Bytes)
+    (h : parseBody b = some (k, rest)) :
+    (kdfOk k → serializeBody k ++ rest = b) ∧ (serializeBody k).length ≤ 32782 := by
+  have hB := parseBody_specB b hb k rest h
+  refine ⟨fun hk => ?_, Nat.le_trans (serializeBodyB_length_le _ k) hB.2⟩
+  rw [serializeBody, serializeBodyB_kdfOk _ k hk]
+  exact hB.1
+
 theorem reserialize_exact (b : Bytes) (hb : b.Valid) (k : PubKey) (rest : Bytes)
     (h : parseBody b = some (k, rest)) (hk : kdfOk k) : serializeBody k ++ rest = b :=
   (parseBody_spec b hb k rest h).1 hk
+
+/-- full strength, given the regenerated fact that the extra KDF octets are written back -/
+theorem reserialize_exact_full (hk : Gen.pgpKdfKeepsExtra = true) (b : Bytes) (hb : b.Valid) (k : PubKey) (rest : Bytes)
+    (h : parseBody b = some (k, rest)) : serializeBody k ++ rest = b := by
+  rw [serializeBody, hk]
+  exact (parseBody_specB b hb k rest h).1
 
 /-- COUNTEREXAMPLE to `parsed_length` as stated (no `b.Valid` hypothesis): with a "length octet" hi = 2048 (not an
     octet) `readMPI` declares 524288 bits = 65536 octets, and the body is accepted and re-serialised in 65546 octets. -/
@@ -260,7 +300,7 @@ theorem parsed_length_false : ¬ (∀ (b : Bytes) (k : PubKey) (rest : Bytes), p
   intro H
   obtain ⟨z, hz⟩ : ∃ z : Bytes, z.length = 65536 := ⟨List.replicate 65536 0, List.length_replicate⟩
   have := H _ _ _ (ce_parse z hz)
-  simp only [serializeBody, serializeMat, writeMPI, be32, List.length_append, List.length_cons, List.length_nil] at this
+  simp only [serializeBody, serializeBodyB, serializeMatB, writeMPI, be32, List.length_append, List.length_cons, List.length_nil] at this
   omega
 
    -- FALSE without `b.Valid`: refuted by `parsed_length_false`
@@ -276,6 +316,19 @@ theorem fingerprint_rfc4880 (sha1 : Bytes → Bytes) (b : Bytes) (hb : b.Valid) 
     keyId sha1 k = (sha1 ([0x99, b.length / 256, b.length % 256] ++ b)).drop 12 := by
   have e : serializeBody k = b := by
     have := reserialize_exact b hb k [] h hk
+    simpa using this
+  have l := parsed_length_valid b hb k [] h
+  have hp : sigPrefix k = [0x99, b.length / 256, b.length % 256] := by
+    simp only [sigPrefix]
+    rw [Nat.mod_eq_of_lt l, e]
+  simp only [keyId, fingerprint, hp, e, and_self]
+
+theorem fingerprint_rfc4880_full (hk : Gen.pgpKdfKeepsExtra = true) (sha1 : Bytes → Bytes) (b : Bytes) (hb : b.Valid)
+    (k : PubKey) (h : parseBody b = some (k, [])) :
+    fingerprint sha1 k = sha1 ([0x99, b.length / 256, b.length % 256] ++ b) ∧
+    keyId sha1 k = (sha1 ([0x99, b.length / 256, b.length % 256] ++ b)).drop 12 := by
+  have e : serializeBody k = b := by
+    have := reserialize_exact_full hk b hb k [] h
     simpa using this
   have l := parsed_length_valid b hb k [] h
   have hp : sigPrefix k = [0x99, b.length / 256, b.length % 256] := by
